@@ -353,6 +353,16 @@ def declBinTyped (qw : Bool) (word : Nat) (k : Kind) (op : BOp) (x y : Int) : Ve
 def declBinUntyped (qw : Bool) (word : Nat) (k : Kind) (op : BOp) (x y : Int) : Verdict :=
   (checkBinary qw word .untypedInt op x y).bind fun v => checkAssign word k v
 
+/-- `const c = (K(x) op1 K(y)) op2 K(z)`: every typed intermediate result is checked -/
+def declBin2Typed (qw : Bool) (word : Nat) (k : Kind) (op1 op2 : BOp) (x y z : Int) : Verdict :=
+  (declBinTyped qw word k op1 x y).bind fun r => (checkConvert word k z).bind fun z' => checkBinary qw word k op2 r z'
+
+/-- `const c K = (x op1 y) op2 z`: untyped intermediates are exact and unbounded, only the final
+value is checked against `K` -/
+def declBin2Untyped (qw : Bool) (word : Nat) (k : Kind) (op1 op2 : BOp) (x y z : Int) : Verdict :=
+  (checkBinary qw word .untypedInt op1 x y).bind fun r =>
+    (checkBinary qw word .untypedInt op2 r z).bind fun v => checkAssign word k v
+
 /-- `const c = K(x) << s` / `>> s` with an untyped constant count -/
 def declShiftTyped (word : Nat) (k : Kind) (op : SOp) (x s : Int) : Verdict :=
   (checkConvert word k x).bind fun x' =>
